@@ -31,14 +31,36 @@ def q(name):
 
 class TempTree(object):
     """A temp directory removed on exit."""
-    def __init__(self, prefix='vmon_lib_'):
+    def __init__(self, prefix='vmon_lib_', stat_stable=False):
+        """stat_stable: files keep their byte size (texts are padded with
+        trailing blanks to a multiple of 512 bytes) and their time stamps
+        when they are rewritten -- what `cp -p`, `rsync -t`, an archive
+        extraction or an edit on a coarse-timestamp file system leaves."""
         self.path = tempfile.mkdtemp(prefix=prefix)
+        self.stat_stable = stat_stable
+        self.same_stat_rewrites = 0
 
     def write(self, rel, text):
         p = os.path.join(self.path, rel)
         os.makedirs(os.path.dirname(p), exist_ok=True)
+        before = None
+        if self.stat_stable:
+            if not text.endswith('\n'):
+                text += '\n'
+            nbytes = len(text.encode('utf8'))
+            text += ' ' * (-nbytes % 512)
+            if os.path.exists(p):
+                before = os.stat(p)
+                with open(p) as f:
+                    old = f.read()
         with open(p, 'w') as f:
             f.write(text)
+        if before is not None:
+            os.utime(p, ns=(before.st_atime_ns, before.st_mtime_ns))
+            after = os.stat(p)
+            if old != text and after.st_size == before.st_size and \
+                    after.st_mtime_ns == before.st_mtime_ns:
+                self.same_stat_rewrites += 1
         return p
 
     def __enter__(self):
